@@ -38,6 +38,11 @@ def cases(tier, seed):
             out.append({"name": "zip.concurrent/%s/%s" % (form, "-".join(assign)), "kind": "conc", "form": form, "assign": list(assign), "cap": cap})
             out.append({"name": "zip.nested/%s/%s" % (form, "-".join(assign)), "kind": "nested", "form": form, "assign": list(assign),
                         "budget": 300 if tier == "quick" else None})
+        # the call itself is the suspended side: inputs finish (on another thread) while the function is wiring them up
+        for pre in ("none", "first-done"):
+            for second in ("complete0", "complete1", "complete_all", "fail1", "cancel1"):
+                out.append({"name": "zip.construct/%s/%s/%s" % (form, pre, second), "kind": "construct", "form": form, "pre": pre,
+                            "second": second, "cap": None})
         # inputs that are library futures sharing a dependency: two f_map views of one future + a plain future
         vops = ["cancel_v1", "cancel_d", "complete_d", "fail_d", "fail_x", "complete_x", "cancel_out"]
         for a in vops:
@@ -55,19 +60,33 @@ class FalsyError(Exception):
         return 0
 
 
+ITERABLE_KIND = ["list"]  # how f_sequence / f_traverse are handed their inputs: list | generator | iterator | map
+
+
+def as_iterable(xs):
+    k = ITERABLE_KIND[0]
+    if k == "generator":
+        return (x for x in xs)
+    if k == "iterator":
+        return iter(list(xs))
+    if k == "map":
+        return map(lambda x: x, list(xs))
+    return list(xs)
+
+
 def mk(form, ins, fn_log=None):
     F = instr.ME.futures
     if form == "zip":
         return F.f_zip(*ins)
     if form == "sequence":
-        return F.f_sequence(list(ins))
+        return F.f_sequence(as_iterable(ins))
     table = list(ins)
 
     def fn(k):
         if fn_log is not None:
             fn_log.append(k)
         return table[k]
-    return F.f_traverse(fn, range(len(ins)))
+    return F.f_traverse(fn, as_iterable(range(len(ins))))
 
 
 def complete(f, code, i, excs):
@@ -149,6 +168,8 @@ def run_order(case, res):
                 for i in range(n):
                     excs[i] = FalsyError("in%d" % i)
             pre = (0, 1, n)[(ci // 4) % 3] if wrap else 0
+            # the inputs arrive as a list, a generator, an iterator or a map object (one-shot iterables)
+            ITERABLE_KIND[0] = ("list", "generator", "iterator", "map", "list")[ci % 5]
             for i in order[:pre]:
                 complete(ins[i], assign[i], i, excs)
             out = mk(form, given)
@@ -166,6 +187,7 @@ def run_order(case, res):
             # after a failure / cancel decided the output nothing else is required of the inputs
             res.sample({"function": "f_" + form, "inputs": "".join(assign), "completion_order": order, "output": outcome_repr(outcome(out))}, limit=1)
         finally:
+            ITERABLE_KIND[0] = "list"
             end(ctx)
     check_common(res)
 
@@ -350,6 +372,60 @@ class ConcScenario(object):
             res.key("conc", self.case["form"], "".join(assign), info.get("site"), info.get("site2"))
 
 
+class ConstructScenario(object):
+    def __init__(self, case):
+        self.case = case
+
+    def setup(self):
+        ctx = Ctx()
+        ctx.ins = [SpyFuture("in%d" % i) for i in range(4)]
+        ctx.excs = {}
+        ctx.assign = ["V"] * 4
+        ctx.order = []
+        if self.case["pre"] == "first-done":
+            complete(ctx.ins[0], "V", 0, ctx.excs)
+            ctx.order.append(0)
+        ctx.out = None
+        return ctx
+
+    def victim_role(self, ctx):
+        return "V"
+
+    def start_victim(self, ctx):
+        def build():
+            ctx.out = mk(self.case["form"], ctx.ins)
+        return ctx.actor("V", build).go()
+
+    def intervene(self, ctx):
+        sec = self.case["second"]
+        todo = {"complete0": [(0, "V")], "complete1": [(1, "V")], "complete_all": [(i, "V") for i in range(4)],
+                "fail1": [(1, "E")], "cancel1": [(1, "C")]}[sec]
+        for i, code in todo:
+            ctx.assign[i] = code
+            if complete(ctx.ins[i], code, i, ctx.excs):
+                ctx.order.append(i)
+
+    def finish(self, ctx):
+        for i in range(4):
+            if complete(ctx.ins[i], ctx.assign[i], i, ctx.excs):
+                ctx.order.append(i)
+
+    def oracle(self, ctx, res, info):
+        label = "%s placement=%s" % (self.case["name"], info.get("site"))
+        if ctx.out is None:
+            res.inconclusive.append("%s: the call did not return" % label)
+            return
+        a = info.get("victim")
+        if a is not None and a.error is not None and not isinstance(a.error, instr.DeadlockBroken):
+            res.violation("raised/%s/%s" % (self.case["form"], type(a.error).__name__), "%s: the call raised %r" % (label, a.error))
+            return
+        # an input that fails / is cancelled decides when it is first in completion order; inputs finished before the
+        # call are seen in argument order
+        check(res, label, self.case["form"], ctx.out, ctx.assign, [list(ctx.order)], ctx.excs)
+        if info.get("hit"):
+            res.key("construct", self.case["form"], self.case["pre"], self.case["second"], info.get("site"))
+
+
 class ViewScenario(object):
     """out = f_zip / f_sequence / f_traverse over (f_map(d), f_map(d), x): two threads act on the inputs / the
     output; every call returns, the output is decided by the model of whatever order the inputs ended in."""
@@ -436,6 +512,9 @@ def run_case(case, res):
     rng = random.Random("c15/%s/%s" % (case["seed"], case["name"]))
     if k == "views":
         Sweep(ViewScenario(case), res, "rt", case["name"]).run(case["cap"], rng, per_site=2)
+        return
+    if k == "construct":
+        Sweep(ConstructScenario(case), res, "rt", case["name"]).run(case["cap"], rng, per_site=2)
         return
     if k == "order":
         run_order(case, res)
